@@ -7,6 +7,10 @@ use lc3_ensemble::parse::parse_ast;
 
 const SIGMA: [&str; 18] = ["\"", "\\", "n", "\n", "\r", " ", "é", "😀", "x", "-", "#", "9", "R", ".", ",", ":", ";", "A"];
 
+/// second alphabet: other token starters and Unicode classes the lexer's regexes may or may not accept
+const SIGMA2: [&str; 16] = ["_", "0", "f", "r", "X", "\t", "'", "+", "\u{a0}", "\u{0663}", "\u{2167}", "\"", "\\", "\n", ":", "\u{feff}"];
+fn nth_string2(mut i: u64, len: usize) -> String { let mut s = String::new(); for _ in 0..len { s.push_str(SIGMA2[(i % 16) as usize]); i /= 16; } s }
+
 fn check(text: &str) -> Option<(String, String)> {
     match catch(|| parse_ast(text).map(|v| v.len()).map_err(|e| e.span())) {
         Err(p) => Some((format!("panic:{}", panic_site(&p)), format!("parse_ast panicked: {p}"))),
@@ -34,6 +38,7 @@ fn base_texts(ctx: &Ctx) -> Vec<String> {
     let mut v = vec![];
     for i in 0..f.len("BASE") { if let Some(p) = f.get("BASE", i) { v.push(render(&p, &Style::plain()).text); if i % 3 == 0 { v.push(render(&p, &style_of(3887, 37)).text); } } }
     for i in (0..f.len("L1")).step_by(ctx.pick(211, 61)) { if let Some(p) = f.get("L1", i) { v.push(render(&p, &style_of((i * 7) % Style::PRIMARY, DEFAULT_SECONDARY)).text); } }
+    v.retain(|t| t.len() <= 400); // edits are quadratic in the text length
     v.push(".orig x3000\n.stringz \"a\\\"b\\\\c\\n\"\n.end".to_string());
     v.push("LABEL: .stringz \"é😀\" ; é\r\n".to_string());
     v
@@ -57,7 +62,7 @@ fn edits(text: &str) -> Vec<String> {
 
 pub fn run(ctx: &Ctx) -> Report {
     let maxlen = ctx.pick(5usize, 6usize);
-    let mut rep = Report::new("(a) all strings of length <=L over an 18-symbol alphabet with one symbol per lexer regex branch and escape-scanner branch (quote, backslash, n, LF, CR, space, 2- and 4-byte UTF-8, x, -, #, 9, R, ., comma, colon, semicolon, A); (b) every single char-level edit (insert/replace/delete/truncate with every symbol at every position) of ~60 valid program texts, and every pair of edits on short texts (thorough); (c) string literals of 65533..65537 bytes with/without trailing escape or unclosed, numerals of 1..40 digits in each notation. oracle: no panic; Err carries spans with start<=end<=len. non-trivial = input containing a quote or backslash (reaches the string scanner) or rejected by the parser");
+    let mut rep = Report::new("(a) all strings of length <=L over an 18-symbol alphabet with one symbol per lexer regex branch and escape-scanner branch (quote, backslash, n, LF, CR, space, 2- and 4-byte UTF-8, x, -, #, 9, R, ., comma, colon, semicolon, A); (a') all strings of length <=4 (thorough 5) over a second 16-symbol alphabet (underscore, 0, f, r, X, TAB, apostrophe, +, NBSP, an Arabic-Indic digit, a Roman-numeral letter, quote, backslash, LF, colon, BOM); (b) every single char-level edit (insert/replace/delete/truncate with every symbol at every position) of ~60 valid program texts, and every pair of edits on short texts (thorough); (c) string literals of 65533..65537 bytes with/without trailing escape or unclosed, numerals of 1..40 digits in each notation. oracle: no panic; Err carries spans with start<=end<=len. non-trivial = input containing a quote or backslash (reaches the string scanner) or rejected by the parser");
     for len in 0..=maxlen {
         let n = 18u64.pow(len as u32);
         let r = sweep(ctx, n, 8192, |i, acc| {
@@ -71,6 +76,16 @@ pub fn run(ctx: &Ctx) -> Report {
             if rejected { acc.count("rejected", 1); } else { acc.count("accepted", 1); }
             acc.sample(i + len as u64, ctx.seed, 1_000_003, || format!("{s:?}"));
             if let Some((sig, d)) = res { acc.violation(sig, sig_input(&s), format!("{d} on input {s:?}")); }
+        });
+        rep.absorb(r);
+    }
+    // (a') second alphabet (Unicode digits / letters / spaces, other token starters)
+    for len in 1..=ctx.pick(4usize, 5usize) {
+        let r = sweep(ctx, 16u64.pow(len as u32), 8192, |i, acc| {
+            let s = nth_string2(i, len);
+            acc.evals += 1; acc.transitions += 1; acc.count("alphabet2_strings", 1);
+            if s.contains('"') || s.contains('\\') { acc.nontrivial += 1; }
+            if let Some((sig, d)) = check(&s) { acc.violation(sig, sig_input(&s), format!("{d} on input {s:?}")); }
         });
         rep.absorb(r);
     }
